@@ -40,6 +40,7 @@ var (
 	ErrConnectionDraining = errors.New("nats: connection draining")
 	ErrDrainTimeout       = errors.New("nats: draining connection timed out")
 	ErrBadSubscription    = errors.New("nats: invalid subscription")
+	ErrInvalidArg         = errors.New("nats: invalid argument")
 	ErrBadSubject         = errors.New("nats: invalid subject")
 	ErrMaxPayload         = errors.New("nats: maximum payload exceeded")
 	ErrTimeout            = errors.New("nats: timeout")
@@ -146,7 +147,34 @@ type Subscription struct {
 	closed    bool
 	draining  bool
 	Delivered int
+	// pending limits (nats.go: a message that arrives while more than msgLimit messages or bytesLimit
+	// bytes wait for the callback is dropped — slow consumer —, not queued; <= 0 means no limit)
+	msgLimit   int
+	bytesLimit int
+	Dropped    int
 }
+
+// SetPendingLimits mirrors nats.go: zero is not a valid limit, a negative one means unlimited.
+func (s *Subscription) SetPendingLimits(msgLimit, bytesLimit int) error {
+	s.obj.Write()
+	if s.closed {
+		return ErrBadSubscription
+	}
+	if msgLimit == 0 || bytesLimit == 0 {
+		return ErrInvalidArg
+	}
+	s.msgLimit, s.bytesLimit = msgLimit, bytesLimit
+	return nil
+}
+
+func (s *Subscription) PendingLimits() (int, int, error) {
+	s.obj.Read()
+	if s.closed {
+		return 0, 0, ErrBadSubscription
+	}
+	return s.msgLimit, s.bytesLimit, nil
+}
+
 
 // NewConn returns a connected fake connection.
 func NewConn() *Conn {
@@ -444,6 +472,24 @@ func (c *Conn) enqueue(s *Subscription, m *Msg) {
 	cp := *m
 	cp.Sub = s
 	s.obj.Write()
+	waiting, bytes := 1, len(cp.Data)
+	for _, q := range s.pending {
+		if q.barrier == nil {
+			waiting++
+			bytes += len(q.Data)
+		}
+	}
+	ml, bl := s.msgLimit, s.bytesLimit
+	if ml == 0 {
+		ml = DefaultSubPendingMsgsLimit
+	}
+	if bl == 0 {
+		bl = DefaultSubPendingBytesLimit
+	}
+	if (ml > 0 && waiting > ml) || (bl > 0 && bytes > bl) {
+		s.Dropped++ // slow consumer: the message is gone
+		return
+	}
 	s.pending = append(s.pending, &cp)
 	s.pMsgs++
 }
